@@ -312,8 +312,40 @@ def witness2(hyp, names, t):
     return None
 
 
+def witness3(hyp, names, t):
+    """Exact rational vertex: the point of the box where hyp holds and t is exceeded the most, on the grid 1/D given by
+    its own denominators (data with coefficients like 2^-20 put the interesting points there); kept only if every product
+    TLC will form fits its integers."""
+    STATS["z3_calls"] += 1
+    o = z3.Optimize()
+    X = {n: z3.Real(n) for n in names}
+    for n in names:
+        o.add(X[n] <= BOX, X[n] >= -BOX)
+
+    def lin(co):
+        terms = [a * X[v] for v, a in co.items() if a != 0]
+        return z3.Sum(terms) if terms else z3.RealVal(0)
+
+    for r in hyp:
+        o.add(lin(r["co"]) <= r["c"])
+    o.maximize(lin(t["co"]))
+    if o.check() != z3.sat:
+        return None
+    mod = o.model()
+    P = {n: _frac(mod.eval(X[n], model_completion=True)) for n in names}
+    d = _lcm(list(P.values()) or [F(1)])
+    if d > 4 * 10**6:
+        return None
+    q = {n: int(P[n] * d) for n in names}
+    e = sum(a * q[v] for v, a in t["co"].items()) - t["c"] * d
+    if e * 10000 <= (t["k"] + abs(t["c"])) * d or not witness_fits(hyp, t, q, d):
+        return None
+    STATS["witness"] += 1
+    return {"kind": "witness", "mu": 1, "lam": {}, "d": d, "q": q}
+
+
 def witness(hyp, names, t):
-    return guarded_witness(hyp, [], names, t) or witness2(hyp, names, t)
+    return guarded_witness(hyp, [], names, t) or witness2(hyp, names, t) or witness3(hyp, names, t)
 
 
 # ------------------------------------------------------------------ decisions (hint only)
